@@ -513,22 +513,25 @@ impl Harness for C05 {
             jobs,
             budget_s: if t { 2700 } else { 40 },
             case_deadline_ms: 20_000,
+            // about 1/10 of what the complete quick tier reaches (see NOTES.md), so that a run cut
+            // short by the wall budget on a busy machine still passes, and a vacuous one does not
             floors: vec![
-                ("root_split", 100_000),
-                ("trees_2plus_levels", 50_000),
-                ("trees_4plus_levels", 500),
-                ("reg_opt_nodes", 100_000),
-                ("cls_opt_nodes", 100_000),
-                ("gain_tie_nodes", 10_000),
-                ("zero_gain_split", 1_000),
-                ("leaf_at_msl_boundary", 10_000),
-                ("leaf_at_max_depth", 10_000),
-                ("leaf_with_pending_split", 10_000),
-                ("leaf_without_admissible_cut", 10_000),
-                ("leaf_majority_tie", 10_000),
-                ("impure_leaf", 10_000),
-                ("reproduce_checked", 10_000),
-                ("pure_leaf_above_mss", 10_000),
+                ("root_split", 1_000_000),
+                ("trees_2plus_levels", 150_000),
+                ("trees_4plus_levels", 5_000),
+                ("reg_opt_nodes", 400_000),
+                ("cls_opt_nodes", 90_000),
+                ("gain_tie_nodes", 100_000),
+                ("zero_gain_split", 50_000),
+                ("leaf_at_msl_boundary", 500_000),
+                ("leaf_at_max_depth", 500_000),
+                ("leaf_with_pending_split", 100_000),
+                ("leaf_without_admissible_cut", 150_000),
+                ("leaf_majority_tie", 500_000),
+                ("impure_leaf", 1_000_000),
+                ("reproduce_checked", 6_000),
+                ("pure_leaf_above_mss", 20_000),
+                ("argsort_unstable_among_ties", 100_000),
             ],
             bounds: json!({
                 "seed_variant": seed % 8,
